@@ -56,6 +56,9 @@ def arm_pattern(okey):
         k2 = re.sub(rx, rep, k)
         if k2 != k:
             return k2
+    if "/site/" in k and k.count("|") == 2:
+        # `fn|kind|what` without operands: the same instance as `fn|kind|what|operands`
+        return re.sub(r"(::|/)c\d+(?![A-Za-z0-9_])", r"\1c#", k + "|")
     if "/site/" in k and k.count("|") >= 3:
         # K8 may-panic sites `fn|kind|what|operands`: the instance is the kind of site in that function (an unwrap, a division, a call of X),
         # not the function as a whole — a variant that confirms `f|extern|withdraw|` says nothing about `f|unwrap|unwrap|`
